@@ -15,12 +15,15 @@ check("C05",
       "the dialled id; every mismatch rejects (exact iff); for every sequence of header blocks in every chunking from a peer that keeps sending after "
       "a rejection, every key given to Tub.brokerAttached is proven (receive-loop invariant over the phases); two-ended session: any key ever "
       "registered at either end is proven, mismatches leave no connection, honest pairs connect; invariant over all histories of Tub.brokers; "
-      "getReference and inbound reference URLs only over proven connections. Translated from the AST on every run: the identity fragment of "
+      "getReference and inbound reference URLs only over proven connections; for every history of getReference requests made before "
+      "startService (queued) and after it, each request is answered for its OWN FURL (connection key and object name). Translated from the AST on every run: the binding "
+      "of the SturdyRef in startService's resumption loop, the identity fragment of "
       "evaluateNegotiationVersion1, where receive_phase changes around it (handleENCRYPTED, error handler, non-deciding end), which certificate "
       "crypto.peerFromTransport returns, the attach key of switchToBanana, the listener lookup, the inbound-url check. Run on real Tubs over the "
       "in-memory network and compared with the model by vm_compute: the role x leaf x extra-chain x claim x dialled-id x GET-id matrix (968 cells "
       "quick), ~2000 raw-peer scripts (all block kinds, all chunkings, in-flight bytes delivered after hang-up; phase, theirTubRef and attached keys "
-      "after every chunk), table histories interleaving Tub peers and raw peers; an oracle with an independently computed hash judges every "
+      "after every chunk), table histories interleaving Tub peers and raw peers, ~500 getReference request histories (several Tubs / names queued before start); a "
+      "per-reference oracle judges every getReference result (Tub.brokers key, leaf certificate, reference URL, object a call reaches) and an oracle with an independently computed hash judges every "
       "brokerAttached and every table state; 23 malformed-block families, forged URLs, gifts.",
       "Trusted: the TLS handshake proves possession of the LEAF certificate's key (the tree's own crypto.peerFromTransport and twisted's "
       "Certificate.peerFromTransport run on a fake OpenSSL handle: leaf + extra chain certificates); Tubs always have a certificate; no listener "
@@ -102,16 +105,21 @@ check("C11",
       "Coq proof of buffer bounds for a generic tokenizer + per-chunk correspondence + high-water oracle on real constraints", "DESIGN.md 5/C11")
 
 check("C14",
-      "Theorems (Coq, 11): for every finite schedule of lookups / dials / block deliveries / cuts / per-end close notifications / restarts / "
-      "time-outs of a two-Tub model, at quiescence M's current connection is c iff S's is c (full statement, inductive per-connection invariant); the "
+      "Theorems (Coq, 12): for every finite schedule of lookups / dials / block deliveries / cuts / per-end close notifications / restarts / "
+      "time-outs / instant retries from errbacks of a two-Tub model, at quiescence M's current connection is c iff S's is c (full statement, inductive per-connection invariant); the "
       "current connection is the unique live Broker end; decision lemmas on the TRANSLATED compareOfferAndExisting (older seqnum / 'none' from the "
       "same incarnation rejected, different incarnation accepted, equal accepted, greater rejected, pre-0.2.0 by handle-old age); waiters are "
-      "answered when the connector finishes or times out; issued = fired + waiting. 'A redundant attempt never displaces' is refuted for offers that "
+      "answered when the connector finishes or times out, and a lookup issued synchronously from inside such an errback again waits on a live "
+      "connector (uses the order of effects TRANSLATED from Tub.connectionFailed); issued = fired + waiting; the non-master records the decision "
+      "it accepts whoever dialled (one step, guard TRANSLATED from acceptDecisionVersion1; the all-schedules form is not proved). 'A redundant attempt never displaces' is refuted for offers that "
       "remember the master's past life (known finding, replayed on real Tubs). Tie: fail-closed AST translation of compareOfferAndExisting / "
-      "handle_old and about 60 shape facts of negotiate / connection / pb / broker; 1512 decision cases and 150 seeded schedules of two real Tubs on "
-      "the in-memory network compared with the model after every step (brokers, master/slave tables, connectors, waiters, link states). Direct "
-      "oracle: cross-connects with 1-3 hints, cuts, restarts, black holes, byte- and block-granular delivery, virtual time: agreement at quiescence, "
-      "no displacement by a redundant attempt, restart displaces, every getReference fires exactly once within CONNECTION_TIMEOUT.",
+      "handle_old, of the connectionFailed effect order and the slave_table guard, and about 60 shape facts of negotiate / connection / pb / broker; "
+      "1512 decision cases, 18 scripted and 150 seeded schedules of two real Tubs on the in-memory network compared with the model after every step (brokers, master/slave tables, connectors, waiters, link states). Direct "
+      "oracle (a fixed battery independent of the seed + seeded runs + corpus witnesses per seeded-change family): cross-connects with 1-3 hints, "
+      "cuts, restarts, black holes, one-sided cuts after connections dialled in either direction with redial by the side that noticed (several "
+      "rounds), raced cross-connect then cut then new lookups, lookups issued re-entrantly from every callback / errback, byte- and block-granular "
+      "delivery, virtual time: agreement at quiescence, no displacement by a redundant attempt, restart and knowing redial displace the stale "
+      "connection, every getReference (re-entrant ones included) fires exactly once within its own CONNECTION_TIMEOUT.",
       "Modelled, not verified: Twisted Deferreds/reactor, TLS (no-op), whole-block delivery in the model (byte interleavings by the oracle only), "
       "incarnations as integers, version/vocab negotiation assumed to succeed (C13), two Tubs only; per-Deferred exactly-once and the 120 s bound "
       "are checked by the oracle.",
@@ -157,7 +165,7 @@ check("C09",
       "Coq invariant proof over an executable model + translated counting functions + trace validation (vm_compute) on real Brokers", "DESIGN.md 5/C09")
 
 check("C10",
-      "Theorems (Coq, 15; receiver-side rejections stay inside their top-level object (reportViolation shape fact); f.type rebuilt from the "
+      "[Round 3: wrapping is unconditional in the failure's class (foolscap's own exception classes, 3-party relay); every inbound delivery is handled whatever the readiness of earlier ones (refused / unresolvable gifts: C10_deliveries_all_handled); fixed corpus witness per seed family.] Theorems (Coq, 15; receiver-side rejections stay inside their top-level object (reportViolation shape fact); f.type rebuilt from the "
       "transmitted name alone; multi-fault calls and homonymous exception classes in the catalogue). No hypothesis on the exception: FailureSlicer.getStateToCopy is total and every field it sends fits the byte limits "
       "FailureConstraint enforces (type 200, value 1000, traceback 2000, each parent 200) for any class name, any message incl. text UTF-8 cannot "
       "encode, a raising __str__, any traceback, both unsafeTracebacks settings; each field is the escaped text or a whole-character prefix + '..' "
@@ -210,7 +218,7 @@ check("C18",
       "Coq proofs over an executable model interpreting translated constants/shape facts + vm_compute correspondence + hostile-input oracle", "DESIGN.md 5/C18")
 
 check("C20",
-      "Theorems (Coq, all strings): decode_furl ends in a triple, BadFURLError or ValueError; decode(encode(t,h,n)) = (t,h,n) for every decoded and "
+      "[Round 3: identity is also judged on serialized / received copies (C20_copy_carries_identity); C20_no_stall / C20_attempt_starts over the translated store-before-connect order of Tub.getBrokerForTubRef with a Tub-history correspondence (lib/Connector.v); encode-side and history oracles.] Theorems (Coq, all strings): decode_furl ends in a triple, BadFURLError or ValueError; decode(encode(t,h,n)) = (t,h,n) for every decoded and "
       "every well-formed triple, every decoded triple is well-formed; SturdyRef equality iff (tub id, name) equal, equal references hash alike, "
       "TubRef identity = tub id; get_endpoint over any handler set / address filter ends in an endpoint or InvalidHintError (ports provably 1-5 "
       "digits so int() cannot raise); for each of the four hint patterns a continuation-passing backtracking matcher that follows sre's order takes "
@@ -307,7 +315,7 @@ check("C16",
       "Coq invariant induction over the translated state machine + exhaustive enumeration of permitted sequences compared inside Coq", "DESIGN.md 5/C16")
 
 check("C01",
-      "Theorems (Coq, unbounded; closed under the global context): for every well-formed canonical object term (nested "
+      "[Round 3: C01_discard_slice / C01_discard_rest_of_rejected -- whatever lies in a discarded part, the receiver's object counter advances by exactly the OPENs the sender spent on it; rejected-message preludes before graphs with sharing; vocabulary tables from arbitrary word lists (duplicates, gaps).] Theorems (Coq, unbounded; closed under the global context): for every well-formed canonical object term (nested "
       "list/tuple/set/frozenset/dict/registered Copyable/call scopes, ints of any magnitude, floats as 64-bit words, "
       "bytes/text/bool/None/Decimal, back-references incl. self-containing containers) the receiver's unslicer stack "
       "machine, in any admissible state, consumes exactly the sender's token sequence and rebuilds exactly the denoted "
